@@ -357,6 +357,53 @@ def quatRows (w x y z s : Rat) : V3 × V3 × V3 :=
 /-- `Point.scale(ratio, origin)`: the image of `x` under the scaling about `o` -/
 def scaleAbout (r : Rat) (o x : V3) : V3 := ⟨o.x + r * (x.x - o.x), o.y + r * (x.y - o.y), o.z + r * (x.z - o.z)⟩
 
+/-! ### point generators that need no trigonometry (exact models) -/
+
+/-- the eight corners of an axis-aligned block with lower corner `lo` and edge lengths `dx dy dz`, in the
+    order `Box.__init__` builds them: `point_0, point_0 + delta_x, point_0 + delta_x + delta_y,
+    point_0 + delta_y`, and the same face translated by `delta_z` -/
+def boxFrom (lo : V3) (dx dy dz : Rat) : List V3 :=
+  [⟨lo.x, lo.y, lo.z⟩, ⟨lo.x + dx, lo.y, lo.z⟩, ⟨lo.x + dx, lo.y + dy, lo.z⟩, ⟨lo.x, lo.y + dy, lo.z⟩,
+   ⟨lo.x, lo.y, lo.z + dz⟩, ⟨lo.x + dx, lo.y, lo.z + dz⟩, ⟨lo.x + dx, lo.y + dy, lo.z + dz⟩, ⟨lo.x, lo.y + dy, lo.z + dz⟩]
+
+def minR (a b : Rat) : Rat := if a ≤ b then a else b
+def maxR (a b : Rat) : Rat := if a ≤ b then b else a
+
+/-- `Box(start_point, diagonal_point)`: the two points are sorted coordinate by coordinate -/
+def boxPts (a b : V3) : List V3 :=
+  boxFrom ⟨minR a.x b.x, minR a.y b.y, minR a.z b.z⟩ (maxR a.x b.x - minR a.x b.x) (maxR a.y b.y - minR a.y b.y)
+    (maxR a.z b.z - minR a.z b.z)
+
+/-- `Extrude(face, vector)` in the plane of the face: bottom = the four face points `(x, y, 0)`, top = bottom + `v` -/
+def extrudePts (p0 p1 p2 p3 : Rat × Rat) (v : V3) : List V3 :=
+  [⟨p0.1, p0.2, 0⟩, ⟨p1.1, p1.2, 0⟩, ⟨p2.1, p2.2, 0⟩, ⟨p3.1, p3.2, 0⟩,
+   ⟨p0.1 + v.x, p0.2 + v.y, v.z⟩, ⟨p1.1 + v.x, p1.2 + v.y, v.z⟩, ⟨p2.1 + v.x, p2.2 + v.y, v.z⟩, ⟨p3.1 + v.x, p3.2 + v.y, v.z⟩]
+
+/-- 2-d cross product of `b - a` and `c - a` -/
+def cross2 (a b c : Rat × Rat) : Rat := (b.1 - a.1) * (c.2 - a.2) - (b.2 - a.2) * (c.1 - a.1)
+
+/-- one segment of an `Annulus` lofted along its axis (`ExtrudedRing`): inner and outer radius `r`, `R`,
+    directions `(c, s)` and `(c', s')` of its two radial sides (cosine / sine pairs), length `len` -/
+def ringSegPts (r R len c s c' s' : Rat) : List V3 :=
+  [⟨r * c, r * s, 0⟩, ⟨R * c, R * s, 0⟩, ⟨R * c', R * s', 0⟩, ⟨r * c', r * s', 0⟩,
+   ⟨r * c, r * s, len⟩, ⟨R * c, R * s, len⟩, ⟨R * c', R * s', len⟩, ⟨r * c', r * s', len⟩]
+
+/-- `RoundSolidShape.chop_axial / chop_radial / chop_tangential`: `LoftedShape.chop` with
+    `axial_axis = 2`, `radial_axis = 0`, `tangential_axis = 1`, in the order the probe calls them -/
+def roundChopNodes (chops : List (List Nat)) : List Nat :=
+  chopNodesAxis chops 2 ++ chopNodesAxis chops 0 ++ chopNodesAxis chops 1
+
+/-- the round solid shapes and the sketch class they are lofted from (`sketch_class`) -/
+def roundShapeSketch : List (String × String) :=
+  [("Cylinder", "FourCoreDisk"), ("Frustum", "FourCoreDisk"), ("Elbow", "FourCoreDisk"), ("SemiCylinder", "HalfDisk")]
+
+/-- a round solid shape is the loft of its sketch class: same blocking, and its three chop helpers chop
+    what `Sketch.chops` says through the axis mapping -/
+def roundShapeIsLoft (ns : String × String) : Bool :=
+  match findShape ns.1, findSketch ns.2 with
+  | some s, some e => decide (canon (loftOf e 1) = s.2.1) && decide (roundChopNodes e.chops = dispNodes s.2.2)
+  | _, _ => false
+
 /-! ### line protocol -/
 
 def chunk8 : List Nat → Option Blocking
@@ -403,6 +450,10 @@ def handle (op : String) (args : List String) : Option String :=
   | "c11.shape", [name] => do
       let e ← CBV.Gen.c11Shapes.find? (fun e => e.1 == name)
       some (showBlocking e.2.1 ++ " " ++ showNatList ((e.2.2.flatten).map (fun p => 3 * p.1 + p.2)))
+  | "c11.box", [a, b] => do
+      let a ← parseV3? a
+      let b ← parseV3? b
+      some (" ".intercalate ((boxPts a b).map V3.toStr))
   | "c11.rh", pts => do
       let ps ← pts.mapM parseV3?
       if ps.length != 8 then none else
